@@ -479,7 +479,17 @@ def r4_extension_passthrough(repo=None):
     for t in clib.expand(fn, g, nw.id, cw.args[2]):
         m = re.match(PTR2, _canon(t))
         if not m:
-            unknown.append("data " + _canon(t))
+            # the same address written as base + row * stride: right only with the stride of a *row* (the array is 2-D:
+            # samples x subchannels), not with the size of one item
+            mb_ = re.match(r"^(?:\(char\*\))?PyArray_(?:BYTES|DATA)\((?P<arr>\w+)\)\+(?P<row>.+)\*(?P<step>PyArray_\w+\([^()]*\)(?:\[0\])?)$", _canon(t))
+            if mb_ and re.match(r"^PyArray_ITEMSIZE\(\w+\)$", mb_.group("step")):
+                probs.append("the block's data pointer is computed as base + row * PyArray_ITEMSIZE: one item is one value of one subchannel, "
+                             "a row of the (samples x subchannels) array is num_subchannels items long - every block after the first is "
+                             "taken from the wrong offset when there is more than one subchannel")
+            elif mb_ and re.match(r"^PyArray_(?:STRIDE\(\w+,0\)|STRIDES\(\w+\)\[0\])$", mb_.group("step")):
+                rows.add(mb_.group("row"))
+            else:
+                unknown.append("data " + _canon(t))
         else:
             if m.group("arr") != T[1]:
                 probs.append("the block's data pointer is taken from `%s` instead of `%s`" % (m.group("arr"), T[1]))
